@@ -932,6 +932,6 @@ def p8_hook_wrapper(C, rep, rid):
             else:
                 rep.ob(rid, False, fn, "hook result shape", where=where, detail="hook returns %s" % show(e)[:100])
         # request is the decoded params
-        e = strip(X.operand(b, h.args[-1]))
+        e = strip(mm.inline_pure(F, X, strip(X.operand(b, h.args[-1]))))
         ok = any(x[0] == "call" and x[1] == "serde_json::from_value" for x in walk(e))
         rep.ob(rid, ok, fn, "handler gets the decoded request", where=h.loc, how=show(e)[:80], detail="" if ok else "handler is called with %s" % show(e)[:80], nontrivial=False)
